@@ -163,6 +163,29 @@ func (g *gen) fragScenario(w *world) {
 	if events != 1 {
 		olog.viol("C14", "fragmented-error-message-not-processed-once", fmt.Sprintf("OTRv%d: an error message in %d fragments raised events on %d of the deliveries", version, k, events))
 	}
+	// the same message once more, in pieces that are not fragments: numbers beyond 16 bits (which
+	// wrap around to legal ones), signed numbers, bytes after the closing comma - nothing is processed
+	half := len(whole) / 2
+	mk := func(ix, tot string, part []byte, trail string) []byte {
+		if version == 3 {
+			return []byte(fmt.Sprintf("?OTR|%08x|%08x,%s,%s,%s,%s", sa.OurTag, sa.TheirTag, ix, tot, part, trail))
+		}
+		return []byte(fmt.Sprintf("?OTR,%s,%s,%s,%s", ix, tot, part, trail))
+	}
+	for _, st := range [][][]byte{
+		{mk("65537", "65538", whole[:half], ""), mk("65538", "65538", whole[half:], "")},
+		{mk("+1", "+2", whole[:half], ""), mk("+2", "+2", whole[half:], "")},
+		{mk("00001", "00001", whole, "trailing bytes")},
+		{mk("-65535", "-65534", whole[:half], ""), mk("-65534", "-65534", whole[half:], "")},
+	} {
+		for _, p := range st {
+			w.recv(b, p)
+			olog.ok("C14")
+			if lastEvents != "[]" {
+				olog.viol("C14", "malformed-fragments-processed", fmt.Sprintf("OTRv%d: pieces that are not legal fragments (%.40q…) were reassembled and the message processed: events %s", version, st[0], lastEvents))
+			}
+		}
+	}
 	for j := 0; j < 4 && !w.dead; j++ {
 		var bad []byte
 		ix, tot := []int{0, 3, 1, 0}[j], []int{2, 2, 0, 0}[j]
